@@ -7,8 +7,8 @@
 (*   char strings    == ignores ASCII case; canonical order = octet order   *)
 (*                   of the wire form (length octet first)                  *)
 (*   record data     canonical order = LexCmp of CanonRd (RFC 4034 6.2/6.3) *)
-(*   records         same class / owner / type: canonical order of RDATA;   *)
-(*                   same class, different owner: RFC 4034 6.1 on owners    *)
+(*   records         same class: by owner (RFC 4034 6.1), then type code,   *)
+(*                   then canonical order of RDATA                          *)
 (* Not pinned (any total order coherent with == is admissible): Ord of      *)
 (* char strings, record data and records; == of record data whose           *)
 (* character strings differ only in case; whether == of records looks at    *)
@@ -50,9 +50,13 @@ RecEqCore(r, s) == RecSameKey(r, s) /\ RdEq(r.t, r.val, s.val)
 \* == is pinned unless only the TTL (or character-string case) differs
 RecEqFree(r, s) == RecSameKey(r, s) /\ RdEqLoose(r.t, r.val, s.val)
                      /\ (r.ttl # s.ttl \/ ~RdEq(r.t, r.val, s.val))
-RecCanonPinned(r, s) == r.class = s.class /\ (~NameEq(r.owner, s.owner) \/ r.code = s.code)
+\* canonical order of records = octet order of their canonical wire forms
+\* (owner | type | class | ...): pinned within a class -- by owner in RFC 4034
+\* 6.1 order, then by type code, then by canonical RDATA (6.3)
+RecCanonPinned(r, s) == r.class = s.class
 RecCanonCmp(r, s) ==     \* meaningful where RecCanonPinned
   IF ~NameEq(r.owner, s.owner) THEN CanonNameCmp(r.owner, s.owner)
+  ELSE IF r.code # s.code THEN (IF r.code < s.code THEN -1 ELSE 1)
   ELSE CanonRdCmp(r.t, r.val, s.val)
 
 --------------------------------------------------------------------------
@@ -147,7 +151,7 @@ RecExp(r, s) ==
       parsed_eq |-> hq /\ ComposeRd(r.t, r.val) = ComposeRd(s.t, s.val),
       q_eq |-> RecSameKey(r, s),
       q_canon |-> LexCmp(QWire(r), QWire(s)),
-      hash_ok |-> TRUE, issues |-> <<>>]
+      hash_ok |-> TRUE, hash_ok_hq |-> TRUE, issues |-> <<>>]
 \* D_record_hash_ttl: Record's == ignores the TTL, its Hash feeds it
 \* D_alldata_eq_opt_unknown makes records with OPT / unknown data never equal
 RecDev(r, s) ==
@@ -155,5 +159,12 @@ RecDev(r, s) ==
   THEN [D_alldata_eq_opt_unknown |-> [RecExp(r, s) EXCEPT !.eq = FALSE, !.cmp0 = TRUE]]
   ELSE IF RecEqCore(r, s) /\ r.ttl # s.ttl
   THEN [D_record_hash_ttl |-> [RecExp(r, s) EXCEPT !.hash_ok = FALSE]]
+  \* D_unknown_eq_ignores_rtype: UnknownRecordData's == / cmp look at the data
+  \* octets only, while the Hash of the record data enums feeds the type: two
+  \* records of different unknown types with the same octets are == and hash
+  \* differently
+  ELSE IF r.class = s.class /\ NameEq(r.owner, s.owner) /\ r.code # s.code
+          /\ r.t \notin KnownTypes /\ s.t \notin KnownTypes /\ r.val = s.val
+  THEN [D_unknown_eq_ignores_rtype |-> [RecExp(r, s) EXCEPT !.eq = TRUE, !.cmp0 = TRUE, !.hash_ok = FALSE]]
   ELSE <<>>
 =============================================================================
